@@ -41,7 +41,7 @@ type Program struct {
 }
 
 func loadProgram(repo string) (*Program, error) {
-	cfg := &packages.Config{Mode: packages.LoadAllSyntax, Dir: repo, BuildFlags: []string{"-tags=verif"}, Tests: false}
+	cfg := &packages.Config{Mode: packages.LoadAllSyntax, Dir: repo, BuildFlags: []string{"-tags=verif"}, Tests: false, Env: loadEnv()}
 	pkgs, err := packages.Load(cfg, "./klog/...", ".")
 	if err != nil {
 		return nil, err
@@ -709,4 +709,16 @@ func (p *Program) typeInvariants(t types.Type) []*Clause {
 		return nil
 	}
 	return p.contracts.tinvs[n.Obj().Pkg().Path()+"."+n.Obj().Name()]
+}
+
+// loadEnv: go/packages shells out to `go list`; use the offline go1.26.8 toolchain regardless of the caller's environment.
+func loadEnv() []string {
+	var env []string
+	for _, e := range os.Environ() {
+		if strings.HasPrefix(e, "GOFLAGS=") || strings.HasPrefix(e, "GOPROXY=") || strings.HasPrefix(e, "GOTOOLCHAIN=") || strings.HasPrefix(e, "PATH=") || strings.HasPrefix(e, "GOSUMDB=") {
+			continue
+		}
+		env = append(env, e)
+	}
+	return append(env, "PATH=/opt/veriftools/go1.26.8/bin:"+os.Getenv("PATH"), "GOFLAGS=-mod=mod", "GOPROXY=off", "GOSUMDB=off", "GOTOOLCHAIN=local")
 }
